@@ -30,6 +30,15 @@ func C02(run *vf.Run) {
 		CallNames:    vf.Pick(run, `{"PRH", "PRB", "PRSH", "PRSB", "PL", "WREQ"}`, `{"PRH", "PRB", "PRSH", "PRSB", "PL", "WREQ", "WRESP"}`),
 		DisruptKinds: vf.Pick(run, `{"deny", "redirect", "redirect301late", "ctlDet", "ctlOn", "ctlOff", "ctlReqOn", "ctlReqOff"}`, `{"deny", "deny401late", "drop", "redirect", "redirect301", "redirect301late", "ctlDet", "ctlOn", "ctlOff", "ctlReqOn", "ctlReqOff", "ctlRespOn", "ctlRespOff"}`),
 		Phases2:      "{1, 2, 3, 4, 5}", Workers: 14, Timeout: vf.Pick(run, 15*time.Minute, 120*time.Minute), Relevant: rel})
+	if run.NumViolations() > 0 {
+		return
+	}
+	// a second disruptive rule in any phase (before, in, or after the phase of the first special rule)
+	txm.ReplayEdges(run, txm.MCOpts{Name: "two-disruptive-edges", Engines: `{"On", "DetectionOnly"}`, ReqLimits: "{2}", Ks: "{3}", Modes: `{"slice"}`,
+		CallNames:    vf.Pick(run, `{"PRH", "PRB", "PRSH", "PRSB", "PL"}`, `{"PRH", "PRB", "PRSH", "PRSB", "PL", "WREQ"}`),
+		DisruptKinds: vf.Pick(run, `{"deny", "redirect", "ctlDet", "ctlOn"}`, `{"deny", "drop", "redirect301late", "ctlDet", "ctlOn", "ctlOff"}`),
+		Phases2:      "{1, 2, 3, 4, 5}", Qs: "{1, 2, 3, 4, 5}", ReqShapes: vf.Pick(run, `{"off/Reject"}`, `{"off/Reject", "on/Reject"}`), RespShapes: `{"off/Reject"}`,
+		Workers:      14, Timeout: vf.Pick(run, 15*time.Minute, 120*time.Minute), Relevant: rel})
 }
 
 // C10: body buffering is byte-faithful and limits are enforced exactly.
